@@ -1,4 +1,5 @@
 import AmrK.ReadAfterTaste
+import AmrK.JunkPrefix
 import AmrK.TasteProofs
 import AmrK.TastePltSound
 /-! # C20 — whatever taste accepts, the reader can read completely and consistently -/
@@ -38,5 +39,21 @@ theorem good_plotfile_entries (header : Bytes) (limit : Option Int) (dirs : List
           ∃ hd, parseFabHeader (lineOf (raw.drop e.offset.toNat)) = some hd ∧
             hd.lo = e.lo ∧ hd.hi = e.hi ∧ hd.nf = (m.fields.length : Int) :=
   Taste.good_plotfile_entries header limit dirs h
+
+/-- **bytes glued in front of a FAB header line change nothing**: bytes without white space (hence without a line end), within
+    ASCII, put directly ahead of the magic `FAB` become part of the line's first token; `readline` takes them and the header as
+    one line, and the header parse shared by validator and reader (last four tokens) reads the same box from it.  So "junk ahead
+    of the only FAB of a file, with the recorded offset moved along" is an edit of the header *text*: validation accepts it and
+    the reader reads the box - consistently - whereas junk that ends in a line end makes the file start with a line that is
+    no header (a layout fault, rejected: C04). -/
+theorem junk_glued_to_header_is_ignored (junk : Py.Bytes) (hj : Py.NoSpace junk) (hja : Py.isAscii junk = true)
+    (lo hi : List Int) (nf : Nat) (hlo : lo ≠ []) (hhi : hi ≠ []) (hlen : lo.length = hi.length) (rest : Py.Bytes) :
+    Taste.lineOf (junk ++ Py.canonB lo hi nf ++ rest) = junk ++ Py.canonB lo hi nf ∧
+    Taste.parseFabHeader (junk ++ Py.canonB lo hi nf) = some ⟨lo, hi, (nf : Int)⟩ :=
+  ⟨JunkPrefix.junk_glued_line junk hj lo hi nf rest, JunkPrefix.junk_glued_ignored junk hj hja lo hi nf hlo hhi hlen⟩
+
+example : (Taste.parseFabHeader ([65, 66, 67] ++ Py.canonB [0, 0, 0] [3, 1, 0] 2)).map (fun h => (h.lo, h.hi, h.nf))
+      = some ([0, 0, 0], [3, 1, 0], 2) ∧
+    (Taste.parseFabHeader (Taste.lineOf ([65, 10] ++ Py.canonB [0, 0, 0] [3, 1, 0] 2))).isNone = true := by decide +kernel
 
 end C20
